@@ -29,6 +29,8 @@ func checkC01(c *Ctx) {
 	c.Expect("C01-R16", 2)
 	c.Rule("C01-R17", "HideCursor moves the requested cursor position off-screen (the epilogue of every draw re-evaluates the request; a cleared visibility flag alone would be undone by the next Show)")
 	c.Expect("C01-R17", 1)
+	c.Rule("C01-R18", "in sendFgBg the reset of both colours is emitted before any colour is selected (emitted afterwards it would wipe an RGB colour that was just selected for the other side)")
+	c.Expect("C01-R18", 1)
 	c.Rule("C01-R13", "the underline attribute bit and the underline style stay in step (the painters draw from the style): every Style method that replaces attrs as a whole also sets ulStyle, every method that sets ulStyle also sets the bit")
 	c.Expect("C01-R13", 2)
 	c.Rule("C01-R12", "LockRegion locks exactly the cells of the rectangle it is given (cells outside it stay paintable)")
@@ -71,6 +73,7 @@ func checkC01(c *Ctx) {
 	checkTextNotPadded(c, p, "C01-R15")
 	checkStyleCacheWrites(c, p, "C01-R16")
 	checkHideCursor(c, p, "C01-R17", "tScreen")
+	checkResetBeforeColours(c, p, "C01-R18")
 	if db := buildDB(c, p); db != nil {
 		for _, e := range db.entries {
 			n := e.Int["Colors"]
